@@ -65,19 +65,44 @@ pub fn prepare(root: &Path) -> PathBuf {
     std::fs::write(manifest.join("fixtures/app/file.txt"), b"fixture file").unwrap();
     std::fs::write(manifest.join("fixtures/app/remove-me.txt"), b"to be removed by the preprocessor").unwrap();
     std::fs::write(manifest.join("fixtures/app/sub/inner"), b"inner").unwrap();
+    // the manifest directory is also a dependency-free libcnb.rs-style buildpack crate (for BuildpackReference::CurrentCrate)
+    std::fs::create_dir_all(manifest.join("src")).unwrap();
+    std::fs::write(manifest.join("Cargo.toml"), "[package]\nname = \"bp-under-test\"\nversion = \"0.1.0\"\nedition = \"2021\"\n\n[workspace]\n").unwrap();
+    std::fs::write(manifest.join("src/main.rs"), "fn main() { println!(\"buildpack under test\"); }\n").unwrap();
+    std::fs::write(manifest.join("buildpack.toml"), "api = \"0.10\"\n\n[buildpack]\nid = \"verif/current\"\nversion = \"0.1.0\"\n").unwrap();
     manifest
 }
 
+fn which_cargo() -> PathBuf {
+    for d in std::env::var("PATH").unwrap_or_default().split(':') {
+        let p = Path::new(d).join("cargo");
+        if p.is_file() {
+            return p;
+        }
+    }
+    PathBuf::from("cargo")
+}
+
 pub fn run_scenario(root: &Path, scn: &Value, fail_at: Option<u64>, pack_fail_seq: &str) -> TrOutcome {
+    run_scenario_env(root, scn, fail_at, pack_fail_seq, false)
+}
+
+/// `with_toolchain`: keep the caller's environment (cargo, rustup, linker) so that the worker can compile the crate
+/// in the manifest directory; the stand-ins stay first on PATH.
+pub fn run_scenario_env(root: &Path, scn: &Value, fail_at: Option<u64>, pack_fail_seq: &str, with_toolchain: bool) -> TrOutcome {
     let manifest = prepare(root);
     let state = root.join("state");
     let log = root.join("log.jsonl");
     let fixture_before = crate::fsutil::snapshot(&manifest);
     let mut cmd = std::process::Command::new(bin_dir().join("vworker"));
-    cmd.arg("tr")
-        .arg(scn.to_string())
-        .env_clear()
-        .env("PATH", root.join("stubbin"))
+    cmd.arg("tr").arg(scn.to_string());
+    if with_toolchain {
+        let path = format!("{}:{}", root.join("stubbin").display(), std::env::var("PATH").unwrap_or_default());
+        cmd.env("PATH", path).env("CARGO", which_cargo()).env("CARGO_NET_OFFLINE", "true").env_remove("CI").env("CARGO_TARGET_DIR", root.parent().unwrap_or(root).join("cargo-target"));
+    } else {
+        cmd.env_clear().env("PATH", root.join("stubbin"));
+    }
+    cmd
         .env("TMPDIR", root.join("tmp"))
         .env("CARGO_MANIFEST_DIR", &manifest)
         .env("VSTUB_STATE", &state)
